@@ -18,7 +18,7 @@ from vlib.core import Violation
 TYPES = ['_http._tcp.local.', '_ipp._tcp.local.']
 SVCS = [
     {'type': TYPES[0], 'name': 'vic0.' + TYPES[0], 'port': 80, 'server': 'victim.local.', 'addrs': ['10.0.0.1'], 'props': ''},
-    {'type': TYPES[1], 'name': 'vic1.' + TYPES[1], 'port': 81, 'server': 'victim.local.', 'addrs': ['10.0.0.1'], 'props': '00'},
+    {'type': TYPES[1], 'name': 'vic1.' + TYPES[1], 'port': 81, 'server': 'victim.local.', 'addrs': ['10.0.0.1', 'fe80::1'], 'props': '00'},
     {'type': TYPES[0], 'name': 'vic2.' + TYPES[0], 'port': 82, 'server': 'victim-b.local.', 'addrs': ['10.0.0.1', 'fe80::1'], 'props': ''},
 ]
 # how a call that was in flight on another thread when close() was requested may end (all documented)
@@ -167,6 +167,7 @@ def _check_threaded(case: Dict[str, Any]) -> Dict[str, Any]:
     bgs: List[Bg] = []
     listeners: List[ThreadListener] = []
     registered: List[int] = []      # services whose blocking register_service() returned (and were not unregistered)
+    unregistered_ks: set = set()
     infos: Dict[int, Any] = {}
     announced: List[str] = []
     threads_before = set(threading.enumerate())
@@ -196,6 +197,7 @@ def _check_threaded(case: Dict[str, Any]) -> Dict[str, Any]:
                     registered.append(op['svc'])
             elif kind == 'unregister' and registered:
                 k = registered.pop(0)
+                unregistered_ks.add(k)
                 zc.unregister_service(infos[k])
             elif kind == 'browser':
                 lst = ThreadListener(w, op['slow_ms'], op.get('spawn', 0), TYPES[1 - op['type']], listeners)
@@ -303,9 +305,11 @@ def _check_threaded(case: Dict[str, Any]) -> Dict[str, Any]:
         # the last word about each of the instance's own records before the sockets closed must be a goodbye (also for a
         # registration on another thread that completed while the close was under way)
         own = set()
-        for d in SVCS:
+        for k_, d in enumerate(SVCS):
             sv = rp.Svc(d)
-            own |= {sv.ptr(), sv.srv(), sv.txt()} | set(sv.addresses())
+            own |= {sv.ptr(), sv.srv(), sv.txt()}
+            if k_ not in unregistered_ks:
+                own |= set(sv.addresses())      # (an earlier unregister leaves the addresses to a sibling on the host name)
         last_word: Dict[Any, int] = {}
         for e in trace:
             if e['dst'] != sim.MDNS4 or e['closed']:
